@@ -43,9 +43,10 @@ VARIABLES
   cropSup,     \* cumulative harvest
   wetPrev, areaPrev,  \* seaweed biomass / used area at the end of the previous month
   feedPrev,    \* previous month's feed total
+  fedMin,      \* worst month so far of what people eat (all foods, in units of the requirement)
   done
 
-lvars == <<rc, mon, sfStock, cropStore, cropSup, meatSup, meatUse, wetPrev, areaPrev, feedPrev, done>>
+lvars == <<rc, mon, sfStock, cropStore, cropSup, meatSup, meatUse, wetPrev, areaPrev, feedPrev, fedMin, done>>
 
 Draw(g, x) == Add(Add(Mul(g, x.h), x.f), x.b)
 FeedTotal(a) == Add(Add(Add(a.sf.f, a.crops.f), Add(a.scp.f, a.cs.f)), Mul(rc.swKcal, a.sw.f))
@@ -57,7 +58,7 @@ Pct(x) == Mul(x, Dec(100, 1))     \* percent -> fraction
 IsGross(g, w) == EqT(Mul(g, Sub(One, Pct(w))), One, LpAbs, TolRel)
 
 LInit == /\ rc = [kind |-> "none"] /\ mon = -1 /\ sfStock = Zero /\ cropStore = Zero /\ cropSup = Zero /\ meatSup = Zero
-         /\ meatUse = Zero /\ wetPrev = Zero /\ areaPrev = Zero /\ feedPrev = Zero /\ done = FALSE
+         /\ meatUse = Zero /\ wetPrev = Zero /\ areaPrev = Zero /\ feedPrev = Zero /\ fedMin = Zero /\ done = FALSE
 
 (* c: the round's constants; wastes, harvest loss and growth are in percent *)
 Begin(c) ==
@@ -69,7 +70,7 @@ Begin(c) ==
   /\ sfStock' = c.sfInitial
   /\ cropStore' = Zero /\ cropSup' = Zero /\ meatSup' = Zero /\ meatUse' = Zero
   /\ wetPrev' = c.swInit /\ areaPrev' = c.swInitArea
-  /\ feedPrev' = Zero
+  /\ feedPrev' = Zero /\ fedMin' = Zero
   /\ done' = FALSE
 
 (* e = [m, sup |-> [crops, meat, scp, cs, built, growth, feed, bio], a |-> allocation] *)
@@ -81,6 +82,8 @@ Month(e) ==
       useNext == Add(meatUse, Mul(rc.gMeat, a.meat))
       feed == FeedTotal(a)
       bio == BioTotal(a)
+      \* what people eat this month: the allocation to humans plus the foods that bypass the optimiser (milk, fish, greenhouse crops)
+      fed == Add(Add(Add(Add(a.sf.h, a.crops.h), Add(a.meat, a.scp.h)), Add(a.cs.h, Mul(rc.swKcal, a.sw.h))), Add(Add(s.milk, s.fish), s.gh))
   IN
   /\ mon >= 0 /\ ~done
   /\ Ck("MonthsInOrder", e.m = mon)
@@ -111,16 +114,21 @@ Month(e) ==
   /\ sfStock' = sfNext /\ cropStore' = cropNext /\ cropSup' = Add(cropSup, s.crops) /\ meatSup' = supNext /\ meatUse' = useNext
   /\ wetPrev' = a.sw.wet /\ areaPrev' = a.sw.area
   /\ feedPrev' = feed
+  /\ fedMin' = IF mon = 0 THEN fed ELSE Min(fedMin, fed)
   /\ UNCHANGED <<rc, done>>
 
-Finish(n) ==
+(* n: horizon; z: the optimum the round reported (first solve), in units of the requirement. C02: the reported optimum is
+   achieved by this (feasible) allocation - the tie-breaking solves keep every month within 0.01 % of it *)
+Finish(n, z) ==
   /\ mon >= 0 /\ ~done
   /\ Ck("AllMonthsAllocated", mon = n)
+  /\ (rc.kind = "humans") => Ck("OptimumAchieved", /\ LLe(Mul(z, Dec(9999, 1)), fedMin)
+                                                    /\ LLe(fedMin, Mul(z, Add(One, Dec(1, 1)))))
   /\ (rc.kind = "humans") => /\ Ck("FullyUsedStored", CLe(sfStock, Zero, rc.sfInitial))
                             /\ Ck("FullyUsedCrops", CLe(cropStore, Zero, cropSup))
   /\ done' = TRUE
   /\ mon' = -1
-  /\ UNCHANGED <<rc, sfStock, cropStore, cropSup, meatSup, meatUse, wetPrev, areaPrev, feedPrev>>
+  /\ UNCHANGED <<rc, sfStock, cropStore, cropSup, meatSup, meatUse, wetPrev, areaPrev, feedPrev, fedMin>>
 
 \* state invariants: nothing that exists is ever negative
 InvStocksNonNeg == mon >= 0 => (CLe(Zero, sfStock, rc.sfInitial) /\ CLe(Zero, cropStore, cropSup) /\ CLe(meatUse, meatSup, meatSup)
